@@ -453,11 +453,35 @@ func (w *world) doOp(op *Op) *reply {
 		w.rt.ctrs[op.Ctr.ID] = c
 		w.rt.order = append(w.rt.order, op.Ctr.ID)
 		rep.target = op.Ctr.ID
+		// an older live instance with the same namespace/pod/container name (its
+		// pod was re-created) is retired by the plugin at the start of the
+		// request, whatever becomes of the request; the runtime is about to stop
+		// it anyway
+		type retired struct {
+			o        *rCtr
+			state    string
+			stopSeen bool
+		}
+		var olds []retired
+		for _, o := range w.rt.ctrs {
+			if o != c && (o.state == "created" || o.state == "running") && o.spec.Name == c.spec.Name &&
+				o.pod.spec.Name == pod.spec.Name && o.pod.spec.Namespace == pod.spec.Namespace {
+				olds = append(olds, retired{o, o.state, o.stopSeen})
+				o.state, o.stopSeen = "stopped", true
+				w.res.Probe("older-instance-with-the-same-name-retired")
+			}
+		}
 		rep.err, rep.crashed = w.call("CreateContainer", func() error {
 			var err error
 			rep.adjust, rep.updates, err = p.CreateContainer(ctx, pod.spec.nri(), w.rt.nriCtr(c))
 			return err
 		})
+		if rep.err != nil && strings.Contains(rep.err.Error(), "failed to cache container") {
+			// refused before the plugin got to retiring anything
+			for _, r := range olds {
+				r.o.state, r.o.stopSeen = r.state, r.stopSeen
+			}
+		}
 		if rep.crashed {
 			return rep
 		}
@@ -476,16 +500,6 @@ func (w *world) doOp(op *Op) *reply {
 			c.state = "created"
 			c.resAtAlloc = w.reservedClass(c)
 			c.cfgAtAlloc = w.cfg
-			// an older live instance with the same namespace/pod/container name
-			// (its pod was re-created) is retired by the plugin right here; the
-			// runtime is about to stop it anyway
-			for _, o := range w.rt.ctrs {
-				if o != c && (o.state == "created" || o.state == "running") && o.spec.Name == c.spec.Name &&
-					o.pod.spec.Name == pod.spec.Name && o.pod.spec.Namespace == pod.spec.Namespace {
-					o.state, o.stopSeen = "stopped", true
-					w.res.Probe("older-instance-with-the-same-name-retired")
-				}
-			}
 		}
 	case "start":
 		c, ok := w.rt.ctrs[op.ID]
